@@ -1,11 +1,11 @@
 (* C05 - Deferred connections: queued at emit, run once in order when evaluated. *)
 From KDB Require Import Util GenIdx GenIdxProofs SigDefs SigInv SigTheorems SigEmit SigDisc.
 
-(* emit only queues: what an unblocked deferred connection contributes to an emission is the evaluator's
+(* emit only queues: what an unblocked deferred connection (not disconnected earlier in the same emission) contributes to an emission is the evaluator's
    "invocation added" notification and no slot call (C01_emit_exact gives the whole emission) *)
 Theorem C05_emit_only_queues :
-  forall i args k c e, c_kind c = KDeferred e -> c_blocked c = false -> fire_events i args (k, c) = [EvAdded e].
-Proof. intros i args k c e Hk Hb. unfold fire_events. rewrite Hb, Hk. reflexivity. Qed.
+  forall i args k c e, c_kind c = KDeferred e -> c_blocked c = false -> c_tbd c = false -> fire_events i args (k, c) = [EvAdded e].
+Proof. intros i args k c e Hk Hb Ht. unfold fire_events. rewrite Hb, Ht, Hk. reflexivity. Qed.
 Print Assumptions C05_emit_only_queues.
 
 (* a pass runs every queued invocation exactly once, in queue (= emission) order, with the argument values stored
